@@ -123,7 +123,7 @@ rv('P', r'^read::op::generic_type \| unwrap', 'invariant', 'ReaderOffset::from_u
 def _value_guards(fnname):
     path = 'read::value::Value::' + fnname
     req = [{'fn': path, 'cmp': ['rhs@%s.0' % v, 'const:0']} for v in ('I8', 'U8', 'I16', 'U16', 'I32', 'U32', 'I64', 'U64')]
-    req.append({'fn': path, 'cmp': ['rhs BitAnd addr_mask', 'const:0']})
+    req.append({'fn': path, 'cmp': ['rhs BitAnd addr_mask' if fnname == 'rem' else 'sign_extend(*v2, addr_mask)', 'const:0']})
     return req
 
 
